@@ -87,13 +87,15 @@ Section OrchProofs.
   Variable perfile : file -> option (list violation).
   Variable collect : file -> evidence.
   Variable report : list evidence -> list violation.
+  Variable parent_sees : file -> bool.
 
   (* domain: what the rules report are Violation objects; no evidence, no cross-file finding *)
   Hypothesis perfile_wf : forall f vs, perfile f = Some vs -> forallb wf_violation vs = true.
   Hypothesis report_nil : report [] = [].
 
   Let seq_run := seq_run file evidence perfile collect report.
-  Let par_run := par_run file evidence perfile collect report.
+  Let par_run := par_run file evidence perfile collect report parent_sees.
+  Let parent_finalize := parent_finalize file evidence collect report parent_sees.
   Let worker := worker file perfile.
   Let below := below_threshold file.
 
@@ -170,36 +172,67 @@ Section OrchProofs.
     if below mw cpu (f :: fs) then seq_run (f :: fs)
     else match mapM (worker q) (f :: fs) with
          | None => None
-         | Some futs => Some (List.concat (apply_sched sched (map extract futs)) ++ parent_finalize file evidence collect report q (f :: fs))
+         | Some futs => Some (List.concat (apply_sched sched (map extract futs)) ++ parent_finalize q (f :: fs))
          end.
   Proof. reflexivity. Qed.
 
-  (* 2. MAIN: with the two defects absent, the parallel run reports the multiset the sequential run
-        reports (and raises iff it raises): all worker counts, all core counts, every completion
-        order, file counts on both sides of the threshold *)
+  Lemma filter_all {A} (p : A -> bool) l : (forall x, In x l -> p x = true) -> filter p l = l.
+  Proof.
+    induction l as [|x xs IH]; intros H; cbn [filter]; [reflexivity|].
+    rewrite (H x (or_introl eq_refl)). f_equal. apply IH. intros y Hy. apply H. now right.
+  Qed.
+
+  (* when the parent gathers the evidence of every file, its finalize reports what the sequential finalize reports *)
+  Lemma parent_finalize_full q files :
+    crossfile_lost q = false ->
+    (parent_restricts q = false \/ forall f, In f files -> parent_sees f = true) ->
+    parent_finalize q files = report (map collect files).
+  Proof.
+    intros Q1 Hs. unfold parent_finalize, OrchPar.parent_finalize, parent_evidence_files. rewrite Q1.
+    destruct (parent_restricts q); [|reflexivity].
+    destruct Hs as [Hs|Hs]; [discriminate Hs|]. now rewrite (filter_all _ _ Hs).
+  Qed.
+
+  (* 2. MAIN (general form): the parallel run reports the multiset the sequential run reports (and raises
+        iff it raises) for all worker counts, core counts, completion orders and file counts, as soon as
+        the parent gathers the evidence of every file and errors surface *)
   Theorem par_equals_seq q mw cpu sched files :
-    q_par_crossfile_lost q = false -> swallows q = false ->
+    crossfile_lost q = false -> swallows q = false ->
+    (parent_restricts q = false \/ forall f, In f files -> parent_sees f = true) ->
     Permutation sched (seq 0 (List.length files)) ->
     out_equiv (par_run q mw cpu sched files) (seq_run files).
   Proof.
-    intros Q1 Q2 S. destruct files as [|f fs].
+    intros Q1 Q2 Hs S. destruct files as [|f fs].
     - unfold par_run, seq_run, OrchPar.par_run, OrchPar.seq_run. cbn [mapM map List.concat app]. rewrite report_nil. apply Permutation_refl.
     - rewrite par_unfold. destruct (below mw cpu (f :: fs)); [apply out_equiv_refl|].
       unfold seq_run, OrchPar.seq_run. destruct (mapM perfile (f :: fs)) as [vss|] eqn:M.
       + destruct (workers_ok q _ _ M) as (futs & W & E). rewrite W, E. cbn [out_equiv].
-        unfold parent_finalize. rewrite Q1. apply Permutation_app_tail, Permutation_concat, apply_sched_perm.
+        rewrite (parent_finalize_full q _ Q1 Hs). apply Permutation_app_tail, Permutation_concat, apply_sched_perm.
         now rewrite (mapM_length _ _ _ M).
       + now rewrite (workers_err q _ Q2 M).
   Qed.
 
-  Lemma swallows_flag_off q : q_worker_swallows_errors q = false -> swallows q = false.
-  Proof. intros H. unfold swallows. now rewrite H. Qed.
+  (* the repaired source: the parent gathers evidence and both handlers re-raise what _safe_check_rule re-raises.
+     Proved from the generated layer, so these two facts hold for EVERY quirk vector, the faithful one included. *)
+  Lemma crossfile_kept_by_source q : crossfile_lost q = false.
+  Proof. unfold crossfile_lost. destruct (q_par_crossfile_lost q); reflexivity. Qed.
 
-  Corollary par_equals_seq_flags q mw cpu sched files :
-    q_par_crossfile_lost q = false -> q_worker_swallows_errors q = false ->
+  Lemma errors_surface_by_source q : swallows q = false.
+  Proof. unfold swallows. destruct (q_worker_swallows_errors q); reflexivity. Qed.
+
+  (* 2'. MAIN for the faithful model: no hypothesis on the cross-file flag or the error flag any more.  What
+         remains is the residual defect: the parent's evidence loop decides exclusion on the raw path. *)
+  Theorem par_equals_seq_faithful q mw cpu sched files :
+    (parent_restricts q = false \/ forall f, In f files -> parent_sees f = true) ->
     Permutation sched (seq 0 (List.length files)) ->
     out_equiv (par_run q mw cpu sched files) (seq_run files).
-  Proof. intros Q1 Q2. apply par_equals_seq; [exact Q1|now apply swallows_flag_off]. Qed.
+  Proof. apply par_equals_seq; [apply crossfile_kept_by_source|apply errors_surface_by_source]. Qed.
+
+  Corollary par_equals_seq_flag_off q mw cpu sched files :
+    q_parent_evidence_raw_path q = false ->
+    Permutation sched (seq 0 (List.length files)) ->
+    out_equiv (par_run q mw cpu sched files) (seq_run files).
+  Proof. intros Q. apply par_equals_seq_faithful. left. unfold parent_restricts. now rewrite Q. Qed.
 
   (* 3. schedule independence for EVERY quirk vector, the faithful one included: two completion
         orders give the same multiset *)
@@ -227,52 +260,48 @@ Section OrchProofs.
     - rewrite par_unfold. destruct (below mw cpu (f :: fs)).
       + exists (report (map collect (f :: fs))). unfold seq_run, OrchPar.seq_run. rewrite M. apply Permutation_refl.
       + destruct (workers_ok q _ _ M) as (futs & W & E). rewrite W, E.
-        exists (parent_finalize file evidence collect report q (f :: fs)). cbn [out_equiv].
+        exists (parent_finalize q (f :: fs)). cbn [out_equiv].
         apply Permutation_app_tail, Permutation_concat, apply_sched_perm. now rewrite (mapM_length _ _ _ M).
   Qed.
 
-  (* 4. the exact characterisation for the vector of the current tree: the parallel run agrees with
-        the sequential run iff the sequential fallback was taken, or no file raises and there is no
-        cross-file finding at all *)
-  Theorem par_actual_equals_seq_iff q mw cpu sched files :
-    q_par_crossfile_lost q = true -> swallows q = true ->
+  (* 4. the exact characterisation for the faithful vector: when the evidence loop restricts itself, the
+        parallel run agrees with the sequential run iff the sequential fallback was taken, or some file raises
+        (both raise), or the report over the files the loop visits is the report over all files *)
+  Theorem par_restricted_equals_seq_iff q mw cpu sched files :
+    parent_restricts q = true ->
     Permutation sched (seq 0 (List.length files)) ->
     (out_equiv (par_run q mw cpu sched files) (seq_run files)
      <-> (List.length files < effective_workers mw cpu * 2
-          \/ (mapM perfile files <> None /\ report (map collect files) = []))).
+          \/ mapM perfile files = None
+          \/ Permutation (report (map collect (filter parent_sees files))) (report (map collect files)))).
   Proof.
-    intros Q1 Q2 S. destruct files as [|f fs].
-    - unfold par_run, seq_run, OrchPar.par_run, OrchPar.seq_run. cbn [mapM map List.concat app]. rewrite report_nil. split.
-      + intros _. right. split; [discriminate|reflexivity].
+    intros Q S. pose proof (crossfile_kept_by_source q) as Q1. pose proof (errors_surface_by_source q) as Q2.
+    destruct files as [|f fs].
+    - unfold par_run, seq_run, OrchPar.par_run, OrchPar.seq_run. cbn [mapM map List.concat app filter]. rewrite report_nil. split.
+      + intros _. right. right. apply Permutation_refl.
       + intros _. apply Permutation_refl.
     - rewrite par_unfold. rewrite <- below_spec. destruct (below mw cpu (f :: fs)).
       + split; [intros _; now left|intros _; apply out_equiv_refl].
-      + destruct (workers_swallow q (f :: fs) Q2) as (futs & W & L & E). rewrite W.
-        unfold parent_finalize. rewrite Q1, report_nil, app_nil_r.
-        unfold seq_run, OrchPar.seq_run. destruct (mapM perfile (f :: fs)) as [vss|] eqn:M.
-        * rewrite (E vss eq_refl). cbn [out_equiv].
+      + unfold seq_run, OrchPar.seq_run. destruct (mapM perfile (f :: fs)) as [vss|] eqn:M.
+        * destruct (workers_ok q _ _ M) as (futs & W & E). rewrite W, E. cbn [out_equiv].
+          unfold parent_finalize, OrchPar.parent_finalize, parent_evidence_files. rewrite Q1, Q.
           assert (P : Permutation (List.concat (apply_sched sched vss)) (List.concat vss)).
           { apply Permutation_concat, apply_sched_perm. now rewrite (mapM_length _ _ _ M). }
           split.
-          -- intros H. right. split; [discriminate|].
-             pose proof (Permutation_length (Permutation_trans (Permutation_sym P) H)) as Len.
-             rewrite app_length in Len.
-             destruct (report (map collect (f :: fs))); [reflexivity|]. cbn [List.length] in Len. lia.
-          -- intros [H|[_ H]]; [discriminate H|]. rewrite H, app_nil_r. exact P.
-        * cbn [out_equiv]. split; [tauto|]. intros [H|[H _]]; [discriminate H|]. now apply H.
+          -- intros H. right. right.
+             apply (Permutation_app_inv_l (List.concat vss)).
+             apply Permutation_trans with (2 := H). now apply Permutation_app_tail, Permutation_sym.
+          -- intros [H|[H|H]]; [discriminate H|discriminate H|].
+             apply Permutation_trans with (List.concat vss ++ report (map collect (filter parent_sees (f :: fs)))).
+             ++ now apply Permutation_app_tail.
+             ++ now apply Permutation_app_head.
+        * rewrite (workers_err q _ Q2 M). cbn [out_equiv]. split; [intros _; right; now left|trivial].
   Qed.
 
-  (* the confinement half, spelled out: outside the two defect classes the faithful model satisfies the property *)
-  Corollary par_actual_partial q mw cpu sched files :
-    q_par_crossfile_lost q = true -> swallows q = true ->
-    Permutation sched (seq 0 (List.length files)) ->
-    mapM perfile files <> None -> report (map collect files) = [] ->
-    out_equiv (par_run q mw cpu sched files) (seq_run files).
-  Proof. intros Q1 Q2 S H1 H2. apply (par_actual_equals_seq_iff q mw cpu sched files Q1 Q2 S). right. now split. Qed.
-
-  (* each defect alone: cross-file findings lost (errors handled properly) *)
+  (* ---- the source before the repairs (kept for the reverting patches: these statements speak about generated
+          layers in which the parent does not gather evidence / the handlers swallow) ---- *)
   Theorem par_crossfile_lost_iff q mw cpu sched files vss :
-    q_par_crossfile_lost q = true -> mapM perfile files = Some vss ->
+    crossfile_lost q = true -> mapM perfile files = Some vss ->
     Permutation sched (seq 0 (List.length files)) ->
     (out_equiv (par_run q mw cpu sched files) (seq_run files)
      <-> (List.length files < effective_workers mw cpu * 2 \/ report (map collect files) = [])).
@@ -284,7 +313,7 @@ Section OrchProofs.
     - rewrite par_unfold. rewrite <- below_spec. destruct (below mw cpu (f :: fs)).
       + split; [intros _; now left|intros _; apply out_equiv_refl].
       + destruct (workers_ok q _ _ M) as (futs & W & E). rewrite W, E.
-        unfold parent_finalize. rewrite Q1, report_nil, app_nil_r.
+        unfold parent_finalize, OrchPar.parent_finalize. rewrite Q1, report_nil, app_nil_r.
         unfold seq_run, OrchPar.seq_run. rewrite M. cbn [out_equiv].
         assert (P : Permutation (List.concat (apply_sched sched vss)) (List.concat vss)).
         { apply Permutation_concat, apply_sched_perm. now rewrite (mapM_length _ _ _ M). }
@@ -296,7 +325,6 @@ Section OrchProofs.
         * intros [H|H]; [discriminate H|]. rewrite H, app_nil_r. exact P.
   Qed.
 
-  (* a raising file: the sequential run raises, the parallel run above the threshold returns normally *)
   Theorem par_swallows_errors q mw cpu sched files :
     swallows q = true -> mapM perfile files = None ->
     effective_workers mw cpu * 2 <= List.length files ->
